@@ -288,11 +288,18 @@ impl Font {
             FontData::CIDFontType0(ref cid) | FontData::CIDFontType2(ref cid) => {
                 let mut widths = Widths::new(cid.default_width);
                 let mut iter = cid.widths.iter();
+                // CIDs are 16 bit numbers: anything else would size the table from a number in the file
+                fn check_cid(c: usize) -> Result<usize> {
+                    if c > 0xffff {
+                        bail!("CID {} in W array out of range", c);
+                    }
+                    Ok(c)
+                }
                 while let Some(p) = iter.next() {
-                    let c1 = p.as_usize()?;
+                    let c1 = check_cid(p.as_usize()?)?;
                     match iter.next() {
                         Some(Primitive::Array(array)) => {
-                            widths.ensure_cid(c1 + array.len() - 1);
+                            widths.ensure_cid(check_cid((c1 + array.len()).saturating_sub(1))?);
                             for (i, w) in array.iter().enumerate() {
                                 widths.set(c1 + i, w.as_number()?);
                             }
@@ -300,7 +307,7 @@ impl Font {
                         Some(&Primitive::Reference(r)) => {
                             match resolve.resolve(r)? {
                                 Primitive::Array(array) => {
-                                    widths.ensure_cid(c1 + array.len() - 1);
+                                    widths.ensure_cid(check_cid((c1 + array.len()).saturating_sub(1))?);
                                     for (i, w) in array.iter().enumerate() {
                                         widths.set(c1 + i, w.as_number()?);
                                     }
@@ -310,7 +317,10 @@ impl Font {
                         }
                         Some(&Primitive::Integer(c2)) => {
                             let w = try_opt!(iter.next()).as_number()?;
-                            for c in c1 ..= (c2 as usize) {
+                            if c2 < 0 {
+                                bail!("negative CID {} in W array", c2);
+                            }
+                            for c in c1 ..= check_cid(c2 as usize)? {
                                 widths.set(c, w);
                             }
                         },
